@@ -69,6 +69,8 @@ def run(ctx):
         ctx.run_rule("R4-error-conversion", r4_errors, F)
         ctx.run_rule("R6-field-coherence", r6_fields, F)
         ctx.run_rule("R7-decisions", r7_decisions, F, table)
+        from rules import c12
+        ctx.run_rule("R8-toggle-use", c12.configured_toggle_readers, F, "R8-toggle-use")      # handlers consult the negotiated mode (shared with C12)
         ctx.run_rule("R5-flag-algebra", r5_flags, F, table)
     finally:
         vf.NOUPD[0] = False
@@ -318,8 +320,26 @@ def r7_decisions(ctx, F, table):
     if os.environ.get("FBR_GEN"):
         print("DECISIONS", json.dumps(got, indent=1))
     want = table.get("decisions", {})
+
+    def nv(x):
+        """named integer constants by value (0o111 vs S_IXUSR|S_IXGRP|S_IXOTH, literal vs libc name), then re-sorted"""
+        if isinstance(x, str):
+            return re.sub(r"\b[A-Z][A-Z0-9_]{2,}\b", lambda m: str(vf.CONST_VALUES.get(m.group(0), m.group(0))), x)
+        if isinstance(x, list):
+            y = [nv(e) for e in x]
+            if all(isinstance(e, str) for e in y) and len(y) == 1 and " & " in y[0]:
+                return [" & ".join(sorted(y[0].split(" & ")))]
+            try:
+                return sorted(y, key=json.dumps)
+            except TypeError:
+                return y
+        return x
     for k in sorted(set(got) | set(want)):
-        ctx.check("R7-decisions", k, got.get(k) == want.get(k),
+        g_, w_ = got.get(k), want.get(k)
+        if k.startswith("access-paths/") and g_ and w_:
+            g_ = [sorted(" & ".join(sorted(nv(p).split(" & "))) for p in site) for site in g_]
+            w_ = [sorted(" & ".join(sorted(nv(p).split(" & "))) for p in site) for site in w_]
+        ctx.check("R7-decisions", k, g_ == w_ or nv(g_) == nv(w_),
                   "%s is decided under %s; reviewed: %s" % (k, json.dumps(got.get(k))[:400], json.dumps(want.get(k))[:400]), loc="", detail=json.dumps(got.get(k))[:120])
     ctx.floor("R7-decisions", 12)
 
